@@ -16,7 +16,7 @@ LEVEL = 'exploration'
 TECHNIQUE = 'bounded-exhaustive enumeration of strings x positions x offsets against a definitional oracle'
 
 ALPHA = ['a', '\n', '\r', ' ']
-ERR_ALPHA = ['a', '\n', '{', '}', '$', '\\', '%', ' ', '[']
+ERR_ALPHA = ['a', '\n', '{', '}', '$', '\\', '%', ' ', '[', '~']
 
 OFFSETS = [(lo, fo, co) for lo in (None, 0, 5) for fo in (0, 3) for co in (0, 2)]
 
